@@ -306,7 +306,7 @@ var c04APITimeout = 200 * time.Second
 // ---------------------------------------------------------------- driver
 
 func runC04() {
-	c := vlib.Start("C04")
+	c := vlib.Start(os.Args[1])
 	defer c.Finish()
 	n := 40
 	if c.Tier == "thorough" {
